@@ -25,7 +25,9 @@ ASSUMPTIONS = ['one representative rule per outcome class of the C01-C06 '
 
 RET = {'false': False, 'none': None, 'zero': 0, 'empty': '', 'list': [],
        'true': True, 'one': 1, 'str': 'x', 'tuple': ('t', 'c')}
-CLASSES = (['allow', 'deny', 'unknown', 'emptyset', 'scope'] +
+CLASSES = (['allow', 'deny', 'unknown', 'emptyset', 'scope',
+            # wrong scope AND a check that denies: still InvalidScope
+            'scope-deny', 'eo-scope-deny'] +
            ['ret-' + k for k in RET] +
            # a check OBJECT needs no named rules: empty rule store
            ['eo-allow', 'eo-deny', 'eo-scope', 'eo-ret-str'] +
@@ -76,7 +78,7 @@ def expected_class(cls):
     if cls in ('allow', 'pw-allow') or cls in ('ret-true', 'ret-one',
                                                'ret-str', 'ret-tuple'):
         return 'allow'
-    if cls == 'scope':
+    if cls in ('scope', 'scope-deny'):
         return 'scope'
     return 'deny'
 
@@ -120,7 +122,9 @@ def build(P, parse_rule, cls):
                               "'secret':%(password)s and "
                               "'tok':%(auth_token)s"),
                 P.RuleDefault('svc:deny', 'role:nope'),
-                P.RuleDefault('svc:scope', '@', scope_types=['system'])]
+                P.RuleDefault('svc:scope', '@', scope_types=['system']),
+                P.RuleDefault('svc:scope-deny', 'role:nope',
+                              scope_types=['system'])]
     for k in RET:
         defaults.append(P.RuleDefault('svc:ret-' + k, 'vret:' + k))
     if cls != 'emptyset' and not cls.startswith('eo-'):
@@ -144,10 +148,11 @@ def rule_for(P, parse_rule, cls, how):
     if cls in ('unknown', 'emptyset'):
         return None
     text = {'allow': 'role:r', 'deny': 'role:nope', 'scope': '@',
+            'scope-deny': 'role:nope',
             'pw-allow': "'secret':%(password)s and 'tok':%(auth_token)s"
             }.get(cls, 'vret:' + cls[4:])
     chk = parse_rule(text)
-    if cls == 'scope':
+    if cls in ('scope', 'scope-deny'):
         chk.scope_types = ['system']
     return chk
 
